@@ -3,6 +3,7 @@
 // quarter-lattice; oracle = winding number in exact integer arithmetic (coordinates are multiples of 1/4,
 // scaled by 4). Boundary points are excluded exactly (integer cross products), as the property says.
 #include "vf/gst.hpp"
+#include <array>
 
 #include "Polygon/PolyElem.hpp"
 #include "Polygon/Polygons.hpp"
@@ -520,6 +521,270 @@ VF_PART(hull)
     }
     if (ring.size() < pts.size()) C.nontrivial(id);
     if (id % 211 == 9) C.sample("{\"id\":" + std::to_string(id) + ",\"points\":" + ringStr(pts) + ",\"hull\":" + ringStr(ring) + "}");
+    delete h; delete db;
+  });
+}
+
+
+// ---- query points extremely close to (but off) the boundary: a tolerance creeping into the test would misjudge them ----
+// Polygons on L(2,3); query points = quarter-lattice points displaced by +-2^-20 in x and/or y. Everything scaled by 2^22
+// so that the reference stays exact in 64-bit integers.
+typedef __int128 lll;
+struct Q { ll x, y; };  // in units of 2^-22
+static lll crossQ(Q a, Q b, Q c) { return (lll)(b.x - a.x) * (c.y - a.y) - (lll)(c.x - a.x) * (b.y - a.y); }
+static bool onSegQ(Q a, Q b, Q p)
+{
+  if (crossQ(a, b, p) != 0) return false;
+  return std::min(a.x, b.x) <= p.x && p.x <= std::max(a.x, b.x) && std::min(a.y, b.y) <= p.y && p.y <= std::max(a.y, b.y);
+}
+static int refInsideQ(const std::vector<Q>& r, Q p)
+{
+  int n = (int)r.size(), wn = 0;
+  for (int i = 0; i < n; i++)
+  {
+    Q a = r[i], b = r[(i + 1) % n];
+    if (onSegQ(a, b, p)) return -1;
+    lll c = crossQ(a, b, p);
+    if (a.y <= p.y) { if (b.y > p.y && c > 0) wn++; }
+    else            { if (b.y <= p.y && c < 0) wn--; }
+  }
+  return wn != 0 ? 1 : 0;
+}
+static void nearBoundary(Ctx& C, int L, int nv)
+{
+  const ll U = 1LL << 22, EPS = 4;  // EPS*2^-22 = 2^-20
+  int np = (L + 1) * (L + 1);
+  Space sp;
+  for (int k = 0; k < nv; k++) sp.axis("v" + std::to_string(k), np);
+  for_each_case(C, sp, [&](uint64_t id, const std::vector<int>& idx) {
+    std::vector<P> r; std::vector<Q> rq;
+    for (int k = 0; k < nv; k++)
+    {
+      for (int j = 0; j < k; j++) if (idx[j] == idx[k]) return;
+      r.push_back({4 * (idx[k] % (L + 1)), 4 * (idx[k] / (L + 1))});
+      rq.push_back({(idx[k] % (L + 1)) * U, (idx[k] / (L + 1)) * U});
+    }
+    if (!isSimple(r)) { C.skip(); return; }
+    VectorDouble x, y; toXY(r, true, x, y);
+    PolyElem closed(x, y);
+    toXY(r, false, x, y);
+    Polygons pset; pset.addPolyElem(PolyElem(x, y));
+    VectorDouble coor(2);
+    bool nt = false;
+    for (ll qx = -1; qx <= 4 * L + 1; qx++)
+      for (ll qy = -1; qy <= 4 * L + 1; qy++)
+        for (int ex = -1; ex <= 1; ex++)
+          for (int ey = -1; ey <= 1; ey++)
+          {
+            if (ex == 0 && ey == 0) continue;
+            Q p {qx * (U / 4) + ex * EPS, qy * (U / 4) + ey * EPS};
+            int ref = refInsideQ(rq, p);
+            if (ref < 0) { C.outcome("boundary-point-excluded"); continue; }
+            // is the undisplaced point on the boundary? then this query is a genuine near-boundary probe
+            Q p0 {qx * (U / 4), qy * (U / 4)};
+            bool near = refInsideQ(rq, p0) < 0;
+            if (!near) continue;   // far points are already judged by the other parts
+            nt = true;
+            coor[0] = (double)p.x / (double)U; coor[1] = (double)p.y / (double)U;   // exact: |p| < 2^26
+            bool g0 = closed.inside(coor), g1 = pset.inside(coor, false);
+            C.eval(2);
+            if (g0 != (bool)ref || g1 != (bool)ref)
+              C.violation("pip:near-boundary", "point 2^-20 away from the boundary misjudged: PolyElem::inside=" + std::to_string(g0) + " Polygons::inside=" + std::to_string(g1) + " exact=" + std::to_string(ref) +
+                          " ring=" + ringStr(r) + " point=(" + fmt(coor[0]) + "," + fmt(coor[1]) + ")", std::to_string(id));
+          }
+    if (nt) { Hash h; for (auto& q : r) h.i(q.x).i(q.y); C.nontrivial(h.u(77).h); }
+    if (id % 20011 == 3) C.sample("{\"id\":" + std::to_string(id) + ",\"ring\":" + ringStr(r) + ",\"queries\":\"boundary lattice points displaced by 2^-20\"}");
+  });
+}
+VF_PART(near_tri_L3) { nearBoundary(C, 3, 3); }
+VF_PART(near_quad_L3) { nearBoundary(C, 3, 4); }
+VF_PART(near_penta_L2) { nearBoundary(C, 2, 5); }
+VF_PART(near_penta_L3) { if (C.thorough()) nearBoundary(C, 3, 5); }
+
+// ---- translated / scaled copies: the answer must not depend on where the polygon sits (large coordinates) -----------
+VF_PART(translated)
+{
+  // all simple quads on L(2,2) (quick) / L(2,3) (thorough), translated by large dyadic offsets and scaled by powers of two:
+  // every coordinate stays exactly representable, the exact reference is translation / scale invariant
+  int L = C.thorough() ? 3 : 2, nv = 4;
+  int np = (L + 1) * (L + 1);
+  std::vector<std::array<double, 3>> tr = {{1048576., -524288., 1.}, {-16777216.25, 33554432.5, 1.}, {0., 0., 1024.}, {4096.75, -8192.25, 1. / 64.}, {1e6, 3e6, 1.}};
+  Space sp; sp.axis("tr", (int)tr.size());
+  for (int k = 0; k < nv; k++) sp.axis("v" + std::to_string(k), np);
+  for_each_case(C, sp, [&](uint64_t id, const std::vector<int>& idx) {
+    std::vector<P> r;
+    for (int k = 0; k < nv; k++)
+    {
+      for (int j = 0; j < k; j++) if (idx[1 + j] == idx[1 + k]) return;
+      r.push_back({4 * (idx[1 + k] % (L + 1)), 4 * (idx[1 + k] / (L + 1))});
+    }
+    if (!isSimple(r)) { C.skip(); return; }
+    double ox = tr[idx[0]][0], oy = tr[idx[0]][1], sc = tr[idx[0]][2];
+    VectorDouble x, y;
+    for (auto& p : r) { x.push_back(ox + sc * p.x / 4.); y.push_back(oy + sc * p.y / 4.); }
+    Polygons pset; pset.addPolyElem(PolyElem(x, y));
+    x.push_back(x[0]); y.push_back(y[0]);
+    PolyElem closed(x, y);
+    VectorDouble coor(2);
+    int nin = 0, nout = 0;
+    for (ll qx = -2; qx <= 4 * L + 2; qx++)
+      for (ll qy = -2; qy <= 4 * L + 2; qy++)
+      {
+        int ref = refInside(r, {qx, qy});
+        if (ref < 0) continue;
+        coor[0] = ox + sc * qx / 4.; coor[1] = oy + sc * qy / 4.;
+        bool g0 = closed.inside(coor), g1 = pset.inside(coor, false);
+        C.eval(2);
+        ref ? nin++ : nout++;
+        if (g0 != (bool)ref || g1 != (bool)ref)
+          C.violation("pip:translated", "translated/scaled polygon: PolyElem::inside=" + std::to_string(g0) + " Polygons::inside=" + std::to_string(g1) + " exact=" + std::to_string(ref) + " ring=" + ringStr(r) +
+                      " offset=(" + fmt(ox) + "," + fmt(oy) + ") scale=" + fmt(sc) + " point=(" + fmt(coor[0]) + "," + fmt(coor[1]) + ")", std::to_string(id));
+      }
+    if (nin && nout) C.nontrivial(id);
+    if (id % 9973 == 1) C.sample("{\"id\":" + std::to_string(id) + ",\"ring\":" + ringStr(r) + ",\"offset\":[" + fmt(ox) + "," + fmt(oy) + "],\"scale\":" + fmt(sc) + "}");
+  });
+}
+
+// ---- db_polygon: periodic longitudes, rotated grids, undefined third coordinate ------------------------------------
+VF_PART(db_polygon_more)
+{
+  std::vector<std::vector<P>> rings = {
+    {{0, 0}, {16, 0}, {16, 16}, {0, 16}}, {{0, 0}, {16, 0}, {16, 8}, {8, 8}, {8, 16}, {0, 16}}, {{4, 4}, {12, 4}, {8, 12}}};
+  Space sp; sp.axis("ring", (int)rings.size()).axis("mode", 5).axis("nested", 2).axis("flag_sel", 2);
+  for_each_case(C, sp, [&](uint64_t id, const std::vector<int>& idx) {
+    const std::vector<P>& r = rings[idx[0]];
+    int mode = idx[1];
+    bool nested = idx[2], flag_sel = idx[3];
+    VectorDouble x, y; toXY(r, false, x, y);
+    Db* db = nullptr;
+    std::vector<int> expect; std::vector<std::string> desc;
+    Polygons ps;
+    auto refAt = [&](double px, double py) -> int {   // exact for multiples of 1/8
+      ll X = (ll)std::llround(px * 8), Y = (ll)std::llround(py * 8);
+      std::vector<P> r8; for (auto& v : r) r8.push_back({v.x * 2, v.y * 2});
+      return refInside(r8, {X, Y});
+    };
+    if (mode <= 1)
+    {
+      // periodic longitudes: polygon shifted by +360 (mode 0) or -360 (mode 1); samples at their natural abscissa
+      double sh = mode == 0 ? 360. : -360.;
+      VectorDouble xs = x; for (auto& v : xs) v += sh;
+      ps.addPolyElem(PolyElem(xs, y));
+      std::vector<std::vector<double>> c(2);
+      for (ll qx = -3; qx <= 19; qx += 2) for (ll qy = -3; qy <= 19; qy += 2) { c[0].push_back(qx / 4.); c[1].push_back(qy / 4.); expect.push_back(refAt(qx / 4., qy / 4.)); }
+      db = make_db_xz(c, {});
+      int nc = db->getColumnNumber();
+      db_polygon(db, &ps, flag_sel, /*flag_period*/ true, nested);
+      C.eval();
+      bool nt = false;
+      for (size_t i = 0; i < expect.size(); i++)
+      {
+        if (expect[i] < 0) continue;
+        if (expect[i]) nt = true;
+        if (db->getValueByColIdx((int)i, nc) != (double)expect[i])
+        { C.violation("db_polygon:period", "flag_period: polygon shifted by " + fmt(sh) + " degrees, sample " + std::to_string(i) + " marked " + fmt(db->getValueByColIdx((int)i, nc)) + " expected " + std::to_string(expect[i]), std::to_string(id)); break; }
+      }
+      // without flag_period nothing may be selected
+      db_polygon(db, &ps, flag_sel, false, nested);
+      for (size_t i = 0; i < expect.size(); i++)
+        if (db->getValueByColIdx((int)i, nc + 1) != 0.) { C.violation("db_polygon:period", "without flag_period a polygon 360 degrees away selects sample " + std::to_string(i), std::to_string(id)); break; }
+      if (nt) C.nontrivial(id);
+    }
+    else if (mode == 2 || mode == 3)
+    {
+      // rotated grid (90 or 180 degrees: node coordinates are lattice points up to 1e-15): nodes at odd eighths, far from every edge
+      ps.addPolyElem(PolyElem(x, y));
+      VectorInt nx = {10, 9}; VectorDouble dx = {0.5, 0.5};
+      double ang = mode == 2 ? 90. : 180.;
+      VectorDouble x0 = mode == 2 ? VectorDouble({4.625, -0.375}) : VectorDouble({4.625, 4.125});
+      DbGrid* g = DbGrid::create(nx, dx, x0, {ang, 0.});
+      db = g;
+      int n = g->getSampleNumber();
+      int nc = g->getColumnNumber();
+      db_polygon(g, &ps, flag_sel, false, nested);
+      C.eval();
+      int nin = 0;
+      for (int i = 0; i < n; i++)
+      {
+        VectorDouble c(3, TEST); g->getCoordinatesPerSampleInPlace(i, c);
+        double px = std::round(c[0] * 8) / 8, py = std::round(c[1] * 8) / 8;
+        if (std::fabs(px - c[0]) > 1e-9 || std::fabs(py - c[1]) > 1e-9) { C.note("rotated grid node not on the 1/8 lattice: harness menu"); continue; }
+        int ref = refAt(px, py);
+        if (ref < 0) continue;
+        nin += ref;
+        if (g->getValueByColIdx(i, nc) != (double)ref)
+        { C.violation("db_polygon:rotated-grid", "grid rotated by " + fmt(ang) + " degrees: node " + std::to_string(i) + " at (" + fmt(c[0]) + "," + fmt(c[1]) + ") marked " + fmt(g->getValueByColIdx(i, nc)) + " expected " + std::to_string(ref), std::to_string(id)); break; }
+      }
+      if (nin > 0 && nin < n) C.nontrivial(id);
+    }
+    else
+    {
+      // 3-D Db whose third coordinate is undefined for some samples: the vertical limits cannot exclude them (documented: FFFF(z) passes)
+      ps.addPolyElem(PolyElem(x, y, 0., 1.));
+      std::vector<std::vector<double>> c(3); std::vector<int> zkind;
+      int k = 0;
+      for (ll qx = -1; qx <= 17; qx += 2) for (ll qy = -1; qy <= 17; qy += 2, k++)
+      {
+        c[0].push_back(qx / 4.); c[1].push_back(qy / 4.);
+        int zk = k % 3; zkind.push_back(zk);
+        c[2].push_back(zk == 0 ? 0.5 : zk == 1 ? 5. : TEST);
+        int in = refAt(qx / 4., qy / 4.);
+        expect.push_back(in < 0 ? -1 : (in && zk != 1) ? 1 : 0);
+      }
+      db = make_db_xz(c, {});
+      int nc = db->getColumnNumber();
+      db_polygon(db, &ps, flag_sel, false, nested);
+      C.eval();
+      bool nt = false;
+      for (size_t i = 0; i < expect.size(); i++)
+      {
+        if (expect[i] < 0) continue;
+        if (zkind[i] == 2 && expect[i]) nt = true;
+        if (db->getValueByColIdx((int)i, nc) != (double)expect[i])
+        { C.violation("db_polygon:undefined-z", "3-D Db, sample " + std::to_string(i) + " (z kind " + std::to_string(zkind[i]) + ": 0 inside limits, 1 outside, 2 undefined) marked " + fmt(db->getValueByColIdx((int)i, nc)) + " expected " + std::to_string(expect[i]), std::to_string(id)); break; }
+      }
+      if (nt) C.nontrivial(id);
+    }
+    if (id % 7 == 0) C.sample("{\"id\":" + std::to_string(id) + ",\"case\":" + sp.describe(idx) + "}");
+    delete db;
+  });
+}
+
+// ---- dilated convex hull: every generating point strictly inside, hull within the dilation distance ------------------
+VF_PART(hull_dilated)
+{
+  int L = 3;
+  Space sp; sp.axis("subset", 1 << (L * L)).axis("dilate", 3);
+  for_each_case(C, sp, [&](uint64_t id, const std::vector<int>& idx) {
+    std::vector<std::vector<double>> x(2);
+    int n = 0;
+    for (int k = 0; k < L * L; k++) if (idx[0] >> k & 1) { x[0].push_back(2. * (k % L)); x[1].push_back(2. * (k / L)); n++; }
+    if (n < 3) return;
+    {
+      // degenerate (collinear) point sets have no polygonal hull: not judged, as in part 'hull'
+      bool collinear = true;
+      for (int i = 1; i + 1 < n && collinear; i++)
+        if ((x[0][i] - x[0][0]) * (x[1][i + 1] - x[1][0]) - (x[0][i + 1] - x[0][0]) * (x[1][i] - x[1][0]) != 0.) collinear = false;
+      if (collinear) { C.skip(); return; }
+    }
+    double dil = idx[1] == 0 ? 0.5 : idx[1] == 1 ? 1. : 0.125;
+    Db* db = make_db_xz(x, {});
+    Polygons* h = Polygons::createFromDb(db, dil);
+    C.eval();
+    if (h == nullptr || h->getPolyElemNumber() != 1) { C.violation("hull-dilated:null", "createFromDb(dilate) failed for " + std::to_string(n) + " points", std::to_string(id)); delete db; delete h; return; }
+    // every generating point must be inside (strictly: it is at distance >= dilate*cos(pi/16) from the hull boundary)
+    for (int i = 0; i < n; i++)
+    {
+      VectorDouble c = {x[0][i], x[1][i]};
+      if (!h->inside(c, false)) { C.violation("hull-dilated:point-outside", "generating point (" + fmt(c[0]) + "," + fmt(c[1]) + ") is outside the hull dilated by " + fmt(dil), std::to_string(id)); break; }
+    }
+    // points farther than 'dilate' from the bounding box of the generating points must be outside
+    double xmin = 1e30, xmax = -1e30, ymin = 1e30, ymax = -1e30;
+    for (int i = 0; i < n; i++) { xmin = std::min(xmin, x[0][i]); xmax = std::max(xmax, x[0][i]); ymin = std::min(ymin, x[1][i]); ymax = std::max(ymax, x[1][i]); }
+    for (auto& c : std::vector<VectorDouble> {{xmin - dil - 0.01, (ymin + ymax) / 2}, {xmax + dil + 0.01, (ymin + ymax) / 2}, {(xmin + xmax) / 2, ymin - dil - 0.01}, {(xmin + xmax) / 2, ymax + dil + 0.01}})
+      if (h->inside(c, false)) { C.violation("hull-dilated:too-large", "point (" + fmt(c[0]) + "," + fmt(c[1]) + ") farther than the dilation from every generating point is inside the hull", std::to_string(id)); break; }
+    if (n >= 3) C.nontrivial(id);
+    if (id % 101 == 0) C.sample("{\"id\":" + std::to_string(id) + ",\"npoints\":" + std::to_string(n) + ",\"dilate\":" + fmt(dil) + "}");
     delete h; delete db;
   });
 }
